@@ -140,6 +140,14 @@ func (b *wsBackend) sid(label string) string {
 }
 
 func (b *wsBackend) readLoop(label string, c *websocket.Conn) {
+	if strings.HasPrefix(label, "churn") {
+		// sessions that only exist to be counted: no events
+		for {
+			if _, _, err := c.ReadMessage(); err != nil {
+				return
+			}
+		}
+	}
 	if strings.HasPrefix(label, "stall-") {
 		time.Sleep(6500 * time.Millisecond) // a backend that is busy for a while before it reads again
 	}
@@ -1023,6 +1031,54 @@ func wsCallsDriver(a *Args) {
 		hx.Emit("Final", "panicked", p)
 		cancel()
 		res.Case("poll:abandoned-by-client", map[string]interface{}{})
+	}
+	// a session whose backend said three things and closed, left unpolled while more than a thousand other sessions
+	// are opened and closed on the same shim: its polls still deliver the three messages and then report it closed
+	{
+		hx.Reset("wspoll-churn", "wspoll:unpolled-amid-many-opens")
+		shim, cancel := newShim(be.host(), false)
+		label := "keep-1"
+		sid, st := shim.open(be, label, "1")
+		if st == 200 {
+			sent := map[int]wsMsg{}
+			for n := 1; n <= 3; n++ {
+				m := wsMsg{websocket.TextMessage, []byte(fmt.Sprintf("%d:before-the-crowd", n))}
+				sent[n] = m
+				be.send(label, n, m)
+			}
+			time.Sleep(30 * time.Millisecond)
+			be.closeConn(label)
+			time.Sleep(30 * time.Millisecond)
+			opens := 1100
+			if hx.Thorough() {
+				opens = 9000
+			}
+			for i := 0; i < opens; i++ {
+				st, body := shim.call("open", "ws://svc.example/ws/churn?s=churn", "1")
+				if st != 200 {
+					continue
+				}
+				var r struct {
+					ID string `json:"id"`
+				}
+				json.Unmarshal(body, &r)
+				shim.call("close", fmt.Sprintf(`{"id":%q}`, r.ID), "1")
+			}
+			polled := 0
+			for i := 0; i < 6; i++ {
+				before := polled
+				polled = pollOnce(shim, sid, sent, polled)
+				if polled == before {
+					break
+				}
+			}
+		}
+		shim.mu.Lock()
+		p := shim.panicked
+		shim.mu.Unlock()
+		hx.Emit("Final", "panicked", p)
+		cancel()
+		res.Case("poll:unpolled-amid-many-opens", map[string]interface{}{"other_sessions_opened_and_closed": 1100})
 	}
 	// a backend that never reads (it only streams events): closing the session must still close its websocket
 	for r := 0; r < 2; r++ {
